@@ -338,7 +338,62 @@ def duel_job(job):
         shutil.rmtree(d, ignore_errors=True)
     return part
 
-def dispatch(j): return serial_job(j) if j['kind'] == 'serial' else duel_job(j) if j['kind'] == 'duel' else observer_job(j) if j['kind'] == 'observer' else conc_job(j)
+# ------------------------------------------------------------------ (iv) the other process DIES inside its call: what the surviving process sees is what a fresh process sees
+def survivor_job(job):
+    """process A is killed at the k-th file-system operation of a C_CreateObject / C_SetAttributeValue / C_DestroyObject (every k, before and after the operation); process B, attached
+    since before and holding handles, then searches and reads twice; a fresh process C does the same.  Whatever state the dead process left behind -- B's view at its second look must be
+    C's view (an object C cannot see any more must not be served from B's cache, an object C sees must be visible to B)"""
+    from ck import CK
+    ck = CK(job['hdr']); part = Part(); call = job['call']; d = os.path.join(job['scratch'], 'surv-%s-%d' % (call, job['chunk'])); gold = d + '-gold'
+    for q in (d, gold): shutil.rmtree(q, ignore_errors=True)
+    os.makedirs(gold); X = []
+    def view(x, s):
+        out = []
+        for h in x.findall(s, {})[1]:
+            rvn, v = x.getattrs(s, h, ['CKA_LABEL', 'CKA_ID', 'CKA_VALUE'], cap=4096); out.append((rvn, (v.get('CKA_LABEL') or b'').hex(), (v.get('CKA_ID') or b'').hex(), (v.get('CKA_VALUE') or b'').hex()))
+        return sorted(out)
+    def victim(x, s, h):
+        if call == 'create': return x.call('C_CreateObject', s=s, tmpl=obj_tmpl(x, b'NEW', b'new', False))
+        if call == 'set': return x.call('C_SetAttributeValue', s=s, o=h, tmpl=x.T({'CKA_ID': b'changed-by-the-victim'}))
+        return x.call('C_DestroyObject', s=s, o=h)
+    try:
+        prepare(job['paths'], ck, gold); x = start(job['paths'], ck, 'plain', gold, 0); s = attach(x)
+        for lab in (b'KEEP', b'TARGET'): assert x.call('C_CreateObject', s=s, tmpl=obj_tmpl(x, lab, b'init', False))['rv'] == 0
+        x.call('C_Finalize'); x.close()
+        def fresh(): shutil.rmtree(d, ignore_errors=True); shutil.copytree(gold, d); mkconf(d, 'file')
+        fresh(); A = start(job['paths'], ck, 'plain', d, 1); X = [A]; sa = attach(A); ha = A.findall(sa, {'CKA_LABEL': b'TARGET'})[1][0]
+        A.call('fs', mode='count', root=d + '/tokens'); victim(A, sa, ha); N = A.call('fs', mode='status')['nops']; A.call('fs', mode='off'); A.close(); X = []
+        if job['chunk'] == 0: part.observe('fs operations of the victim call', {'call': call, 'n': N})
+        points = [(k, when) for k in range(1, N + 1) for when in ('before', 'after')]
+        for (k, when) in points[job['chunk']::job['nchunks']]:
+            fresh(); B = start(job['paths'], ck, job['cfg'], d, 2); X = [B]; sb = attach(B); v0 = view(B, sb)
+            A = start(job['paths'], ck, 'plain', d, 1); X.append(A); sa = attach(A); ha = A.findall(sa, {'CKA_LABEL': b'TARGET'})[1][0]
+            A.call('fs', mode='crash', root=d + '/tokens', k=k, when=when)
+            try: victim(A, sa, ha); A.call('fs', mode='off'); died = False; A.close()
+            except Died: died = True
+            X = [B]
+            v1 = view(B, sb); v2 = view(B, sb)
+            C = start(job['paths'], ck, job['cfg'], d, 3); X.append(C); sc = attach(C); vc = view(C, sc); C.call('C_Finalize'); C.close(); X = [B]
+            part.case(('survivor', call, k, when), nontrivial=died, sample={'survivor': [call, k, when, len(v2), len(vc)]} if k == 1 and when == 'before' else None); part.count('survivor_cases'); part.count('victims_died', 1 if died else 0)
+            good = lambda v: [e for e in v if e[0] == 'CKR_OK' and e[1]]      # complete objects only: what a dying call left half-written is C16's subject, not a committed object
+            only_b = [e for e in good(v2) if e not in good(vc)]; only_c = [e for e in good(vc) if e not in good(v2)]
+            if only_b or only_c:
+                kind = 'serves-what-a-fresh-process-no-longer-finds' if only_b and not only_c else 'misses-what-a-fresh-process-finds' if only_c and not only_b else 'differs'
+                wit = {'call': call, 'k': k, 'when': when, 'survivor_only': [(e[0], bytes.fromhex(e[1]).decode('latin-1')) for e in only_b][:4], 'fresh_only': [(e[0], bytes.fromhex(e[1]).decode('latin-1')) for e in only_c][:4]}
+                if call == 'destroy' and only_b and not only_c:
+                    # the dead process had removed the object from the token (its file is gone, no process can ever open it again): an object that no longer exists is still returned here
+                    part.violation(f'survivor-of-a-dead-process|destroy|{kind}', 'another process died inside C_DestroyObject after it had removed the object; at its second look the surviving process still returns the object, which a fresh process no longer finds', wit)
+                else: part.observe('survivor and fresh process disagree after another process died inside a create / set (an interrupted call committed nothing: recorded, not judged)', dict(wit, kind=kind), cap=6); part.count('survivor_disagreements_not_judged')
+            B.call('C_Finalize'); B.close(); X = []
+    except AssertionError as e: part.inconc(f'survivor lane set-up failed ({call}): {e!r}')
+    except Died as ex: part.observe('side:C17 library terminated the host', {'kind': ex.kind(), 'fn': ex.fn}); part.inconc(f'executor died in the survivor lane: {ex}')
+    except Hang: part.inconc('hang in the survivor lane')
+    finally:
+        for x in X: x.kill()
+        for q in (d, gold): shutil.rmtree(q, ignore_errors=True)
+    return part
+
+def dispatch(j): return survivor_job(j) if j['kind'] == 'survivor' else serial_job(j) if j['kind'] == 'serial' else duel_job(j) if j['kind'] == 'duel' else observer_job(j) if j['kind'] == 'observer' else conc_job(j)
 def run(ctx):
     ctx.need('plain', 'asan'); common = dict(paths=ctx.paths, hdr=ctx.paths['asan']['hdr'], scratch=ctx.scratch); jobs = []
     for i in range(ctx.q(32, 64)): jobs.append(dict(common, kind='serial', cfg='asan' if i % 4 == 0 else 'plain', seed=ctx.seed * 1000 + i, nproc=2 + (i % 2), cases=ctx.q(40, 200), perms=None))
@@ -349,6 +404,8 @@ def run(ctx):
     for i in range(ctx.q(48, 160)): jobs.append(dict(common, kind='conc', cfg='plain', seed=ctx.seed * 1000 + 1500 + i, nproc=2 + (i % 2), iters=ctx.q(30, 50), delay_p=[0.03, 0.06][i % 2], delay_us=[40000, 15000][i % 2], writes=0.6))
     for i in range(ctx.q(2, 8)): jobs.append(dict(common, kind='observer', cfg='asan' if i % 2 else 'plain', seed=ctx.seed * 1000 + 700 + i))
     for i in range(ctx.q(16, 48)): jobs.append(dict(common, kind='duel', cfg='plain', seed=ctx.seed * 1000 + 800 + i, nproc=2 + (i % 2), rounds=ctx.q(30, 60), delay_p=[0.3, 0.6][i % 2], delay_us=[50, 200, 800][i % 3]))
+    for call in ('create', 'set', 'destroy'):
+        for c in range(4): jobs.append(dict(common, kind='survivor', cfg='plain', call=call, chunk=c, nchunks=4))
     for part in pmap(dispatch, jobs, max(2, ctx.nproc // 3)): ctx.merge(part)
     # the next call of a process whose reload of the changed object FAILS on a file-system error may fail, but must not answer from the stale copy, and the call after it observes the committed state
     import twoproc
